@@ -137,7 +137,7 @@ def lean_build(targets):
 def lean_sources_audit():
     hits = []
     for root, _, files in os.walk(LEAN):
-        if '.lake' in root:
+        if '.lake' in os.path.relpath(root, LEAN).split(os.sep):
             continue
         for f in files:
             if not f.endswith('.lean'):
@@ -175,7 +175,7 @@ def theorems_of(module):
         m = re.match(r'^end\s+(\S+)', line)
         if m and ns and ns[-1] == m.group(1):
             ns.pop(); continue
-        m = re.match(r'^(?:@\[[^\]]*\]\s*)?theorem\s+(\S+)', line)
+        m = re.match(r'^\s*(?:@\[[^\]]*\]\s*)?(?:private\s+|protected\s+)?theorem\s+(\S+)', line)
         if m:
             names.append('.'.join(ns + [m.group(1)]))
     return names
@@ -226,35 +226,66 @@ def run_driver(lines):
 
 # ---------------------------------------------------------------- implementation side
 class Hang(BaseException):
-    """raised by the per-case time limit (BaseException: not swallowed by `except Exception` in the library)"""
+    """raised by the per-case limit (BaseException: not swallowed by `except Exception` in the library);
+    `cpu` tells which limit fired"""
+    def __init__(self, cpu=True):
+        BaseException.__init__(self)
+        self.cpu = cpu
 
 
-CASE_LIMIT_S = float(os.environ.get('VERIF_CASE_LIMIT', '30'))
-HANGS = [0]          # after 3 time-outs the run stops feeding cases to the implementation
+CASE_LIMIT_S = float(os.environ.get('VERIF_CASE_LIMIT', '30'))          # CPU seconds of this process per case
+WALL_LIMIT_S = float(os.environ.get('VERIF_WALL_LIMIT', str(max(600.0, 20 * CASE_LIMIT_S))))   # backstop for cases that wait for children
+HANGS = [0]          # confirmed CPU-time hangs; after 3 the run stops feeding cases to the implementation
+STALLS = []          # wall-clock stalls (loaded machine, children): infrastructure, never a verdict
 
 
-def limited(f, *a):
-    """f(*a) under a wall-clock limit: a change that makes the implementation loop forever must end
-    as a reported failing input, not as a hanging check (nested inner timers of a property module win)"""
+def _limited_once(f, a):
     import signal
 
-    def on_alarm(signum, frame):
-        raise Hang()
-    old = signal.signal(signal.SIGALRM, on_alarm)
-    signal.setitimer(signal.ITIMER_REAL, CASE_LIMIT_S)
+    def on_cpu(signum, frame):
+        raise Hang(cpu=True)
+
+    def on_wall(signum, frame):
+        raise Hang(cpu=False)
+    old_p = signal.signal(signal.SIGPROF, on_cpu)
+    old_a = signal.signal(signal.SIGALRM, on_wall)
+    signal.setitimer(signal.ITIMER_PROF, CASE_LIMIT_S)
+    signal.setitimer(signal.ITIMER_REAL, WALL_LIMIT_S)
     try:
         return f(*a)
     finally:
+        signal.setitimer(signal.ITIMER_PROF, 0)
         signal.setitimer(signal.ITIMER_REAL, 0)
-        signal.signal(signal.SIGALRM, old)
+        signal.signal(signal.SIGPROF, old_p)
+        signal.signal(signal.SIGALRM, old_a)
+
+
+def limited(f, *a):
+    """f(*a) under a limit on the CPU time this process spends in it (a change that makes the implementation loop
+    forever must end as a reported failing input, not as a hanging check) plus a generous wall-clock backstop for
+    cases that wait for child processes.  A time-out is believed only when a second attempt times out too; a
+    wall-clock time-out is a property of the machine (load, memory pressure), not of the code: it is recorded as a
+    stall and the run ends as an infrastructure failure (exit 2), never as a violation."""
+    try:
+        return _limited_once(f, a)
+    except Hang:
+        pass
+    try:
+        return _limited_once(f, a)          # once more, alone
+    except Hang as h:
+        if not h.cpu:
+            STALLS.append(getattr(f, '__name__', str(f)))
+        raise
 
 
 def safe(f, *a):
     try:
         return limited(f, *a)
-    except Hang:
-        HANGS[0] += 1
-        return "HANG"
+    except Hang as h:
+        if h.cpu:
+            HANGS[0] += 1
+            return "HANG"
+        return "STALL"
     except Exception as e:  # the error branch is part of the correspondence
         return "ERR"
 
@@ -301,6 +332,10 @@ def _float_close(exact, flt, tol):
     return all(abs(x - y) <= tol * scale for x, y in zip(a, b))
 
 
+class FloatRunnerFailed(Exception):
+    pass
+
+
 def float_companion(mod, cases, impl_out, tier):
     """runs the cases of the kinds listed in mod.FLOAT_KINDS through the implementation in plain doubles
     (separate interpreter) and compares with the exact-mode outputs; returns (report, [(case, why)])"""
@@ -311,7 +346,19 @@ def float_companion(mod, cases, impl_out, tier):
     flt = getattr(mod, 'FLOAT_FILTER', None)       # a module may leave out ill-conditioned cases (and must say why)
     sel = [c for c in cases if c.line and c.kind in kinds and impl_out.get(id(c)) not in (None, 'HANG', 'SKIPPED-AFTER-HANGS')
            and (flt is None or flt(c))]
-    sel = sel[:(150 if tier == 'quick' else 1500)]
+    # stratified: the budget is shared round-robin among the kinds (a plain prefix would spend it on the first stream)
+    budget = 150 if tier == 'quick' else 1500
+    by_kind = {}
+    for c in sel:
+        by_kind.setdefault(c.kind, []).append(c)
+    picked = []
+    rank = 0
+    while len(picked) < budget and any(rank < len(v) for v in by_kind.values()):
+        for k in sorted(by_kind):
+            if rank < len(by_kind[k]) and len(picked) < budget:
+                picked.append(by_kind[k][rank])
+        rank += 1
+    sel = picked
     if not sel:
         return dict(cases=0), []
     import tempfile
@@ -323,8 +370,10 @@ def float_companion(mod, cases, impl_out, tier):
     finally:
         os.unlink(path)
     if rc != 0:
-        return dict(cases=len(sel), error=(err or out)[-300:]), []
+        raise FloatRunnerFailed("floatrun.py ended with status %s: %s" % (rc, (err or out)[-300:]))
     res = json.loads(out)
+    if len(res) != len(sel):
+        raise FloatRunnerFailed("floatrun.py answered %d of %d cases" % (len(res), len(sel)))
     bad = []
     worst = F(0)
     for c, fo in zip(sel, res):
@@ -332,7 +381,7 @@ def float_companion(mod, cases, impl_out, tier):
         if not _float_close(eo, fo, tol):
             bad.append((c, "floating point: the implementation run in doubles deviates from its exact run by more than %s (exact %s, doubles %s)"
                         % (float(tol), eo[:120], fo[:120])))
-    return dict(cases=len(sel), kinds=sorted(kinds), tolerance=float(tol), deviations=len(bad),
+    return dict(cases=len(sel), by_kind={k: sum(1 for c in sel if c.kind == k) for k in sorted(by_kind)}, kinds=sorted(kinds), tolerance=float(tol), deviations=len(bad),
                 rule="same implementation, same inputs, IEEE doubles instead of exact rationals (harness/floatrun.py); every number of the output "
                      "within tolerance * max(1, largest magnitude on the line) of the exact run"), bad
 
@@ -438,10 +487,19 @@ def check_property(mod, tier, seed, replay=None):
                         cc = Case.from_json(c); cc.tags = cc.tags + ('corpus',)
                         cases.append(cc)
         cases += list(mod.gen(rng, tier))
+        floor = getattr(mod, 'MIN_CASES', 20)
+        if len(cases) < floor:
+            print("infrastructure failure: the generator produced %d cases (floor %d): nothing would be checked" % (len(cases), floor))
+            return 2
+        gf = getattr(mod, 'STATS', {}).get('gen_failures', 0)
+        if gf and gf * 5 > len(cases):
+            print("infrastructure failure: %d generated histories were dropped because generating them raised (%d kept)" % (gf, len(cases)))
+            return 2
     with_line = [c for c in cases if c.line]
     model_out = run_driver([c.line for c in with_line])
     mo = {id(c): o for c, o in zip(with_line, model_out)}
     diffs = []
+    diag_diffs = []
     kinds = {}
     errs = 0
     impl_out = {}
@@ -451,8 +509,13 @@ def check_property(mod, tier, seed, replay=None):
         kinds[c.kind] = kinds.get(c.kind, 0) + 1
         if io == 'ERR':
             errs += 1
+        if io == 'STALL':
+            continue
         if io != mo[id(c)]:
-            diffs.append(c)
+            # streams tagged 'diagnostic' pin behaviour OUTSIDE the property's quantifier (what exactly happens on
+            # malformed input, above the guard of a routine, for a knot that is not removable, ...): a disagreement
+            # there is reported in the evidence and never becomes a verdict
+            (diag_diffs if 'diagnostic' in c.tags else diffs).append(c)
     if diffs:
         problems.append(dict(kind='correspondence', detail=[dict(line=c.line, impl=impl_out[id(c)], model=mo[id(c)]) for c in diffs[:5]],
                              count=len(diffs)))
@@ -465,14 +528,17 @@ def check_property(mod, tier, seed, replay=None):
         for c, why in fbad:
             failures.append((c, why, mod.classify(c, why) if hasattr(mod, 'classify') else None))
     except Exception as e:
-        float_rep = dict(error="%s: %s" % (type(e).__name__, e))
+        print("infrastructure failure: the float-mode companion did not run: %s: %s" % (type(e).__name__, e))
+        return 2
 
     def probe(c):
         try:
             why = limited(mod.oracle, c)
-        except Hang:
+        except Hang as h:
+            if not h.cpu:
+                return None
             HANGS[0] += 1
-            why = "the implementation did not return within %.0f s on this input" % CASE_LIMIT_S
+            why = "the implementation did not return within %.1f s of CPU time on this input (confirmed by a second attempt)" % CASE_LIMIT_S
         except Exception as e:
             why = "oracle raised %s: %s" % (type(e).__name__, e)
             if os.environ.get('VERIF_DEBUG'):
@@ -505,6 +571,10 @@ def check_property(mod, tier, seed, replay=None):
             anchored = anchorcov.report(REPO, cov_prop, cov_rec.hit)
         except Exception as e:
             anchored = dict(error=str(e))
+    if STALLS and not failures and not problems:
+        print("infrastructure failure: %d case(s) exceeded the wall-clock backstop of %.0f s twice without using their CPU-time limit (machine load / waiting for child processes): %s"
+              % (len(STALLS), WALL_LIMIT_S, ", ".join(sorted(set(STALLS)))[:200]))
+        return 2
     known = [k for k in load_known() if pid in k['property'].split(',')]
     open_ids = {k['id'] for k in known if k['status'] == 'open'}
     new_fail = [f for f in failures if f[2] not in open_ids]
@@ -518,7 +588,11 @@ def check_property(mod, tier, seed, replay=None):
         c, why, fid = shrink_pick(new_fail)
         h = hashlib.sha1((c.line or json.dumps(enc(c.data), sort_keys=True)).encode()).hexdigest()[:10]
         path = os.path.join('replays', '%s-%s.json' % (pid, h))
-        json.dump(dict(property=pid, seed=seed, tier=tier, oracle=why, cases=[c.to_json()],
+        rcases = [c]
+        if 'same-data-again' in c.tags or 'needs-prefix' in c.tags:
+            k_ = cases.index(c)
+            rcases = cases[max(0, k_ - 1):k_ + 1]      # the failure depends on the case run just before it
+        json.dump(dict(property=pid, seed=seed, tier=tier, oracle=why, cases=[x.to_json() for x in rcases],
                        impl=impl_out.get(id(c)), model=mo.get(id(c)), repo=gs,
                        broken=[p['kind'] for p in problems]), open(os.path.join(VERIF, path), 'w'), indent=1)
         lines.append("VIOLATION property=%s replay=%s" % (pid, path))
@@ -565,6 +639,8 @@ def check_property(mod, tier, seed, replay=None):
             partial=getattr(mod, 'PARTIAL', []),
             static=extra,
             correspondence=dict(cases=len(with_line), by_kind=kinds, error_cases=errs, disagreements=len(diffs),
+                                diagnostic_disagreements=[dict(line=c.line[:300], impl=str(impl_out[id(c)])[:120], model=str(mo[id(c)])[:120]) for c in diag_diffs[:10]],
+                                diagnostic_disagreement_count=len(diag_diffs),
                                 distinct_nontrivial=nontrivial,
                                 rule="structured random generation (harness/props/%s.py); non-trivial = distinct op line on which the implementation returns a value (not an error)" % pid.lower()),
             evaluations=len(cases), distinct_nontrivial=nontrivial,
